@@ -454,6 +454,13 @@ func TestGrid(t *testing.T) {
 	for _, r := range [][2]int32{{0, int32(64 * len(big))}, {1, int32(64*len(big)) - 1}, {63, 64*1024 + 63}, {5, 64*4096 + 5}, {64 * 100, 64 * 16000}} {
 		checker.Run(t, Case{Op: "slice", Words: big, From: r[0], To: r[1], Class: "grid-long-bitmap"})
 	}
+	vk.MarkExhaustive("Slice: 12 bitmaps of <= 3 words x all (from,to); Join: all widths x lengths 0..20 x 3 value styles; Getw: all widths on those results at every index")
+}
+
+// TestLast runs at the very end of the process: huge inputs (the maximum bitmap / string) and the regression cases of that size come last, so that
+// what they leave behind in the library cannot mask anything the ordinary cases would have met.
+func TestLast(t *testing.T) {
+	vk.SetPhase("last")
 	// exactly 2^31 bits: the largest positions an int32 holds
 	top := int32(gen.MaxTop)
 	for v := 0; v < gen.MaxVariants; v++ {
@@ -475,5 +482,5 @@ func TestGrid(t *testing.T) {
 		checker.Run(t, Case{Op: "maxslice", Max: 0, From: 0, To: top, Class: "grid-maximum-whole"})
 		checker.Run(t, Case{Op: "maxslice", Max: 2, From: 63, To: top, Class: "grid-maximum-whole"})
 	}
-	vk.MarkExhaustive("Slice: 12 bitmaps of <= 3 words x all (from,to); Join: all widths x lengths 0..20 x 3 value styles; Getw: all widths on those results at every index")
+	checker.RegressLast(t)
 }
